@@ -780,7 +780,10 @@ class Probe:
         replay['buffer_after'] = after.hex()
         region = after[off:off + n]
         bad = [i for i in range(n) if region[i] != ref[i]]
-        stray = [i for i in range(len(after)) if not (off <= i < off + n) and after[i] != before[i]]
+        # a byte that is no longer there, or one that was not there before, is a modified byte too: the caller's buffer
+        # must keep its length (what follows the message in it - the next struct of a C++ memcpy - stays where it was)
+        stray = [i for i in range(max(len(after), len(before))) if not (off <= i < off + n) and
+                 (i >= len(after) or i >= len(before) or after[i] != before[i])]
         if bad:
             i0 = bad[0]
             name = self.member_at(s, i0)
